@@ -372,6 +372,6 @@ package helper
 //@   ensures [C19] typed: converted.APIVersion == gvString(appsv1.SchemeGroupVersion) && (forall j int :: {converted.Items[j]} 0 <= j && j < len(converted.Items) ==> converted.Items[j].APIVersion == gvString(appsv1.SchemeGroupVersion))
 //@   loop 1 "range newList.Items" index k
 //@     invariant newList != nil && fresh(newList) && len(newList.Items) == len(stsList.Items)
-//@     invariant forall j int :: {newList.Items[j]} 0 <= j && j < len(stsList.Items) ==> newList.Items[j].Name == stsList.Items[j].Name && newList.Items[j].Namespace == stsList.Items[j].Namespace && newList.Items[j].UID == stsList.Items[j].UID
-//@     invariant forall j int :: {newList.Items[j]} 0 <= j && j < k ==> newList.Items[j].APIVersion == gvString(appsv1.SchemeGroupVersion)
+//@     invariant [C19] order: forall j int :: {newList.Items[j]} 0 <= j && j < len(stsList.Items) ==> newList.Items[j].Name == stsList.Items[j].Name && newList.Items[j].Namespace == stsList.Items[j].Namespace && newList.Items[j].UID == stsList.Items[j].UID
+//@     invariant [C19] typed: forall j int :: {newList.Items[j]} 0 <= j && j < k ==> newList.Items[j].APIVersion == gvString(appsv1.SchemeGroupVersion)
 //@     invariant newList.APIVersion == gvString(appsv1.SchemeGroupVersion)
